@@ -3,6 +3,7 @@
 #include "d_array.h"
 #include "d_string.h"
 #include "diagnostics/d_stacktrace.h"
+#include "verif_hooks.h"
 
 #include <optional>
 
@@ -89,6 +90,7 @@ static sqf::runtime::runtime::result execute_do(sqf::runtime::runtime& runtime, 
             // Readd return value of frame if it had one
             if (val.has_value())
             { context_active.push_value(val.value()); }
+            SQFVM_VERIF_HOOK(frame_done, runtime, context_active, val.has_value());
 
             // Restart loop-run
             continue;
@@ -203,7 +205,9 @@ static sqf::runtime::runtime::result execute_do(sqf::runtime::runtime& runtime, 
 #endif // DF__SQF_RUNTIME__ASSEMBLY_DEBUG_ON_EXECUTE
 
 
+        SQFVM_VERIF_HOOK(before_instruction, runtime, context_active, **instruction);
         (*instruction)->execute(runtime);
+        SQFVM_VERIF_HOOK(after_instruction, runtime, context_active, **instruction);
 
 
         if (!runtime_error)
@@ -255,15 +259,35 @@ static sqf::runtime::runtime::result execute_do(sqf::runtime::runtime& runtime, 
     }
 }
 
+#ifdef SQFVM_RUNTIME_VERIF
+// Wraps execute_do so that monitors see every slice boundary (and may override the slice budget).
+static sqf::runtime::runtime::result execute_do_verif(sqf::runtime::runtime& runtime, size_t exit_after)
+{
+    SQFVM_VERIF_HOOK(exec_enter, runtime, exit_after);
+    struct leave_guard
+    {
+        sqf::runtime::runtime& r; int res; bool set;
+        ~leave_guard() { SQFVM_VERIF_HOOK(exec_leave, r, set ? res : -100); }
+    } guard{ runtime, 0, false };
+    auto res = execute_do(runtime, exit_after);
+    guard.res = static_cast<int>(res);
+    guard.set = true;
+    return res;
+}
+#define execute_do execute_do_verif
+#endif
+
 sqf::runtime::runtime::result sqf::runtime::runtime::execute(sqf::runtime::runtime::action action)
 {
     sqf::runtime::runtime::result res = result::invalid;
     bool expected = false;
+    SQFVM_VERIF_HOOK(action_enter, *this, static_cast<int>(action));
     switch (action)
     {
     case action::leave_scope:
         if (m_run_atomic.compare_exchange_weak(expected, true, std::memory_order::memory_order_seq_cst, std::memory_order::memory_order_seq_cst))
         {
+            SQFVM_VERIF_HOOK(failpoint, *this, "acquired");
             m_is_exit_requested = false;
             m_is_halt_requested = false;
             auto scopeNum = m_context_active->frames_size() - 1;
@@ -302,6 +326,7 @@ sqf::runtime::runtime::result sqf::runtime::runtime::execute(sqf::runtime::runti
                 m_contexts.clear();
                 m_state = state::empty;
             }
+            SQFVM_VERIF_HOOK(failpoint, *this, "before_release");
             m_run_atomic = false;
 #ifdef DF__SQF_RUNTIME__ASSEMBLY_DEBUG_ON_EXECUTE
             std::cout << "\x1B[33m[ASSEMBLY ASSERT]\033[0m" <<
@@ -318,6 +343,7 @@ sqf::runtime::runtime::result sqf::runtime::runtime::execute(sqf::runtime::runti
     case action::start:
         if (m_run_atomic.compare_exchange_weak(expected, true, std::memory_order::memory_order_seq_cst, std::memory_order::memory_order_seq_cst))
         {
+            SQFVM_VERIF_HOOK(failpoint, *this, "acquired");
             m_is_exit_requested = false;
             m_is_halt_requested = false;
             m_state = state::running;
@@ -401,6 +427,7 @@ sqf::runtime::runtime::result sqf::runtime::runtime::execute(sqf::runtime::runti
                 m_context_active = {};
                 m_state = state::empty;
             }
+            SQFVM_VERIF_HOOK(failpoint, *this, "before_release");
             m_run_atomic = false;
 #ifdef DF__SQF_RUNTIME__ASSEMBLY_DEBUG_ON_EXECUTE
             std::cout << "\x1B[33m[ASSEMBLY ASSERT]\033[0m" <<
@@ -417,6 +444,7 @@ sqf::runtime::runtime::result sqf::runtime::runtime::execute(sqf::runtime::runti
     case action::assembly_step:
         if (m_run_atomic.compare_exchange_weak(expected, true, std::memory_order::memory_order_seq_cst, std::memory_order::memory_order_seq_cst))
         {
+            SQFVM_VERIF_HOOK(failpoint, *this, "acquired");
             m_is_exit_requested = false;
             m_is_halt_requested = false;
             m_state = state::running;
@@ -441,6 +469,7 @@ sqf::runtime::runtime::result sqf::runtime::runtime::execute(sqf::runtime::runti
                 m_context_active = {};
                 m_state = state::empty;
             }
+            SQFVM_VERIF_HOOK(failpoint, *this, "before_release");
             m_run_atomic = false;
 #ifdef DF__SQF_RUNTIME__ASSEMBLY_DEBUG_ON_EXECUTE
             std::cout << "\x1B[33m[ASSEMBLY ASSERT]\033[0m" <<
@@ -457,6 +486,7 @@ sqf::runtime::runtime::result sqf::runtime::runtime::execute(sqf::runtime::runti
     case action::line_step:
         if (m_run_atomic.compare_exchange_weak(expected, true, std::memory_order::memory_order_seq_cst, std::memory_order::memory_order_seq_cst))
         {
+            SQFVM_VERIF_HOOK(failpoint, *this, "acquired");
             m_is_exit_requested = false;
             m_is_halt_requested = false;
             bool success;
@@ -508,6 +538,7 @@ sqf::runtime::runtime::result sqf::runtime::runtime::execute(sqf::runtime::runti
                 m_context_active = {};
                 m_state = state::empty;
             }
+            SQFVM_VERIF_HOOK(failpoint, *this, "before_release");
             m_run_atomic = false;
 #ifdef DF__SQF_RUNTIME__ASSEMBLY_DEBUG_ON_EXECUTE
             std::cout << "\x1B[33m[ASSEMBLY ASSERT]\033[0m" <<
@@ -534,6 +565,7 @@ sqf::runtime::runtime::result sqf::runtime::runtime::execute(sqf::runtime::runti
         }
         else
         {
+            SQFVM_VERIF_HOOK(failpoint, *this, "stop_checked");
             m_is_exit_requested = true;
             res = result::ok;
         }
@@ -547,6 +579,7 @@ sqf::runtime::runtime::result sqf::runtime::runtime::execute(sqf::runtime::runti
             }
             else
             {
+                SQFVM_VERIF_HOOK(failpoint, *this, "abort_checked");
                 m_is_exit_requested = true;
                 res = result::ok;
             }
@@ -555,6 +588,7 @@ sqf::runtime::runtime::result sqf::runtime::runtime::execute(sqf::runtime::runti
         {
             if (m_run_atomic.compare_exchange_weak(expected, true, std::memory_order::memory_order_seq_cst, std::memory_order::memory_order_seq_cst))
             {
+                SQFVM_VERIF_HOOK(failpoint, *this, "abort_acquired");
                 m_contexts.clear();
                 m_context_active = {};
                 m_state = state::empty;
@@ -578,6 +612,7 @@ sqf::runtime::runtime::result sqf::runtime::runtime::execute(sqf::runtime::runti
         res = result::action_error;
         break;
     }
+    SQFVM_VERIF_HOOK(action_leave, *this, static_cast<int>(action), static_cast<int>(res));
     return res;
 }
 
